@@ -34,27 +34,88 @@ func (d *Disk) Write(a uint64, id uint64, bufLen int) bool {
 	return false
 }
 
-// MkBlock builds the attributable block for a write id: the id repeated.
+// Shape bits: bits 56..58 of a write id select how the id is laid out in the
+// block, so that content with zero stretches, content that differs from another
+// block only in a prefix or only in its last word, etc. occurs (optimisations
+// that inspect content -- zero detection, delta writes, digests -- depend on it).
+const (
+	ShapeShift    = 56
+	ShapeUniform  = 0 // every word is the id
+	ShapeLastWord = 1 // only the last word is the id, the rest is zero
+	ShapeFirst    = 2 // only the first word
+	ShapeHeadHalf = 3 // the first half is the id, the second half zero
+	ShapeTailHalf = 4 // the first half zero, the second half the id
+)
+
+// Shaped returns id with the given shape encoded in it.
+func Shaped(id uint64, shape int) uint64 { return id&^(7<<ShapeShift) | uint64(shape)<<ShapeShift }
+
+func shapeOf(id uint64) int { return int(id >> ShapeShift & 7) }
+
+// MkBlock builds the attributable block for a write id: the id (all 64 bits,
+// shape bits included) laid out according to its shape.
 func MkBlock(id uint64, n int) []byte {
 	b := make([]byte, n)
-	for i := 0; i+8 <= n; i += 8 {
-		binary.LittleEndian.PutUint64(b[i:], id)
-	}
-	for i := n &^ 7; i < n; i++ {
-		b[i] = byte(id)
+	words := n / 8
+	put := func(w int) { binary.LittleEndian.PutUint64(b[8*w:], id) }
+	switch shapeOf(id) {
+	case ShapeLastWord:
+		if words > 0 {
+			put(words - 1)
+		}
+	case ShapeFirst:
+		if words > 0 {
+			put(0)
+		}
+	case ShapeHeadHalf:
+		for w := 0; w < words/2; w++ {
+			put(w)
+		}
+	case ShapeTailHalf:
+		for w := words / 2; w < words; w++ {
+			put(w)
+		}
+	default:
+		for w := 0; w < words; w++ {
+			put(w)
+		}
+		for i := n &^ 7; i < n; i++ {
+			b[i] = byte(id)
+		}
 	}
 	return b
 }
 
-// BlockID decodes a block: uniform=true iff all 8-byte words are equal.
+// BlockID decodes a block: the id is its first non-zero word; uniform=true iff
+// the whole block is exactly MkBlock(id); otherwise second is the first word
+// that differs from what that id's layout has at its position.
 func BlockID(b []byte) (id uint64, uniform bool, second uint64) {
 	if len(b) < 8 {
 		return 0, true, 0
 	}
-	id = binary.LittleEndian.Uint64(b)
-	for i := 8; i+8 <= len(b); i += 8 {
-		if w := binary.LittleEndian.Uint64(b[i:]); w != id {
+	for i := 0; i+8 <= len(b); i += 8 {
+		if w := binary.LittleEndian.Uint64(b[i:]); w != 0 {
+			id = w
+			break
+		}
+	}
+	if id == 0 {
+		for _, x := range b {
+			if x != 0 {
+				return 0, false, uint64(x)
+			}
+		}
+		return 0, true, 0
+	}
+	want := MkBlock(id, len(b))
+	for i := 0; i+8 <= len(b); i += 8 {
+		if w, e := binary.LittleEndian.Uint64(b[i:]), binary.LittleEndian.Uint64(want[i:]); w != e {
 			return id, false, w
+		}
+	}
+	for i := len(b) &^ 7; i < len(b); i++ {
+		if b[i] != want[i] {
+			return id, false, uint64(b[i])
 		}
 	}
 	return id, true, 0
